@@ -92,18 +92,21 @@ def check_sum(prog: Program, res: Result) -> None:
            f"the accumulator is updated by `{short(upd[0], 40) if upd else 'nothing'}`: fields of several animals no longer add", fi.where, sample=short(upd[0], 50) if upd else None)
     if ok:
         lp = astq.enclosing_loops(upd[0])[0]
-        okl = isinstance(lp, ast.For) and norm(lp.iter) == "range(n_instances)"
-        nd = astq.deref(fi.node, ast.Name("n_instances", ast.Load()))
-        res.ob(R, okl and nd is not None and norm(nd) == "edge_sources.shape[0]", fi.qualname, "one pass per instance", f"the loop iterates `{short(lp.iter, 40)}`", fi.where)
-        d = astq.deref(fi.node, upd[0].value)
+        le = astq.loop_elems(lp, fi.node) if isinstance(lp, ast.For) else None
+        seqs = [norm(le.seq)] + [norm(s_) for s_, _ in le.extra] if le is not None else []
+        okl = le is not None and "edge_sources" in seqs
+        res.ob(R, okl, fi.qualname, "one pass per instance", f"the loop iterates `{short(lp.iter, 40)}`", fi.where)
         calls = [c for c in ast.walk(lp) if isinstance(c, ast.Call) and prog.resolve_call(fi, c) == f"{EM}:make_pafs"]
-        ok2 = len(calls) == 1
+        ok2 = len(calls) == 1 and le is not None
         if ok2:
-            kw = {k.arg: norm(k.value) for k in calls[0].keywords}
-            lv = norm(lp.target)
-            srcd = astq.deref(fi.node, ast.Name(kw.get("edge_source", "?"), ast.Load()))
-            dstd = astq.deref(fi.node, ast.Name(kw.get("edge_destination", "?"), ast.Load()))
-            ok2 = srcd is not None and dstd is not None and norm(srcd).startswith(f"edge_sources[{lv}") and norm(dstd).startswith(f"edge_destinations[{lv}")
+            mp = prog.func(f"{EM}:make_pafs")
+            b = astq.bind_args(mp, calls[0])
+            keep = [n for n in [le.elem] + [nm for _, nm in le.extra] if n]
+            srcd = astq.expand(fi.node, b.get("edge_source"), keep=keep)
+            dstd = astq.expand(fi.node, b.get("edge_destination"), keep=keep)
+            src_seq = ast.Name("edge_sources", ast.Load())
+            dst_seq = ast.Name("edge_destinations", ast.Load())
+            ok2 = srcd is not None and dstd is not None and le.is_elem(srcd, src_seq) and le.is_elem(dstd, dst_seq)
         res.ob(R, ok2, fi.qualname, "instance i contributes make_pafs(sources[i], destinations[i])", "the per-instance field is not built from that instance's own sources and destinations", fi.where)
     res.floor(R, 4)
 
@@ -134,9 +137,14 @@ def check_range(prog: Program, res: Result) -> None:
     sg2 = S.Sign(de.node, {})
     s2 = sg2.of(rets[0].value) if rets else S.TOP
     res.ob(R, s2 in (S.NONNEG, S.UNIT, S.PUNIT, S.POS, S.ZERO), de.qualname, "squared distance is non-negative", f"distance_to_edge returns a value of abstract sign {s2}", de.where)
-    el = [s for s in astq.assignments_to(de.node, "edge_length") if isinstance(s, ast.Assign)]
-    ok = len(el) == 1 and isinstance(el[0].value, ast.Call) and norm(el[0].value.func) == "torch.maximum" and S.is_pos(S.Sign(de.node, {}).of(el[0].value))
-    res.ob(R, ok, de.qualname, "projection denominator is bounded away from 0", "the squared edge length used as a denominator can be 0", de.where)
+    sgd = S.Sign(de.node, {})
+    divs = [n for n in walk_function(de.node) if isinstance(n, ast.BinOp) and isinstance(n.op, ast.Div)]
+    res.ob(R, len(divs) >= 1, de.qualname, "the projection is a quotient", "no division found in distance_to_edge", de.where)
+    for dv in divs:
+        sd = sgd.of(dv.right)
+        res.ob(R, S.is_pos(sd), de.qualname, f"denominator `{short(dv.right, 40)}` is bounded away from 0",
+               f"the denominator `{short(dv.right, 50)}` has abstract sign {sd}: the squared edge length used as a denominator can be 0 (coincident nodes give NaN/inf weights)",
+               f"{de.module.relpath}:{dv.lineno}")
     res.floor(R, 5)
 
 
@@ -198,38 +206,74 @@ def check_dir(prog: Program, res: Result) -> None:
     res.floor(R, 8)
 
 
+def _strip_calls(e: ast.AST, names=("view", "reshape", "to", "float", "unsqueeze")) -> ast.AST:
+    while isinstance(e, ast.Call) and isinstance(e.func, ast.Attribute) and e.func.attr in names:
+        e = e.func.value
+    return e
+
+
+def _reduction(e: ast.AST, which: str):
+    """(operand, axis) if e is `operand.<which>(dim=k)` / torch.<which>(operand, dim=k)."""
+    if isinstance(e, ast.Call) and isinstance(e.func, ast.Attribute) and e.func.attr == which:
+        if norm(e.func.value) in ("torch", "np"):
+            opnd, rest = (e.args[0], e.args[1:]) if e.args else (None, [])
+        else:
+            opnd, rest = e.func.value, e.args
+        ax = astq.const_value(rest[0]) if rest else None
+        for k in e.keywords:
+            if k.arg in ("dim", "axis"):
+                ax = astq.const_value(k.value)
+        return opnd, ax
+    return None, None
+
+
 def check_inimg(prog: Program, res: Result) -> None:
-    """The in-image filter keeps an animal iff some node lies strictly inside (0, last grid x) x (0, last grid y)."""
+    """The in-image filter keeps an animal iff some node lies strictly inside (0, last grid x) x (0, last grid y):
+    instances[M] with M = ((P > 0) & (P < stack([xv[-1], yv[-1]]))).all(over x,y).any(over nodes), however it is spelled
+    (named intermediates, re-bound names, helper functions are expanded first)."""
     R = "C05-inimg"
     for q in (f"{EM}:generate_pafs", f"{EM}:PartAffinityFieldsGenerator.__iter__"):
         g = prog.func(q)
         res.touch(g)
-        defs = sorted([s_ for s_ in astq.assignments_to(g.node, "in_img") if isinstance(s_, ast.Assign)], key=lambda s_: s_.lineno)
-        exprs = [d.value for d in defs]
-        # collapse a chain  in_img = A; in_img = in_img.all(...).any(...)  or one expression
-        full = exprs[-1] if exprs else None
-        txt = norm(full).replace(" ", "") if full is not None else ""
-        first = norm(exprs[0]).replace(" ", "") if exprs else ""
-        ext = [n for e in exprs for n in ast.walk(e) if isinstance(n, ast.Call) and norm(n.func) == "torch.stack"]
-        ext_d = ext[0] if ext else None
-        if ext_d is None:
-            for e in exprs:
-                for nm in astq.loads_in(e):
-                    d = astq.deref(g.node, ast.Name(nm, ast.Load()))
-                    for n in ast.walk(d) if d is not None and not isinstance(d, ast.Name) else []:
-                        if isinstance(n, ast.Call) and norm(n.func) == "torch.stack":
-                            ext_d = n
-        order = [norm(e) for e in ext_d.args[0].elts] if ext_d is not None and ext_d.args and isinstance(ext_d.args[0], (ast.List, ast.Tuple)) else []
-        res.ob(R, order == ["xv[-1]", "yv[-1]"], g.qualname, "extent = (last grid x, last grid y), matching the (x, y) order of keypoints",
-               f"the in-image extent is built as {order}: x coordinates are compared with the grid HEIGHT (animals near the border of a non-square image are kept/dropped wrongly)",
-               g.where, sample={"extent": order})
-        cmp_ok = "(instances>0)&(instances<" in first or "(instances>0)&(instances<" in txt
-        red_ok = ".all(dim=-1).any(dim=1)" in txt
-        res.ob(R, cmp_ok and red_ok, g.qualname, "animal kept iff some node is strictly inside: all over (x, y), any over nodes",
-               f"the in-image mask is `{short(full, 80) if full is not None else '?'}`", g.where)
-        sel = [s_ for s_ in astq.assignments_to(g.node, "instances") if isinstance(s_, ast.Assign) and norm(s_.value) == "instances[in_img]"]
-        res.ob(R, len(sel) == 1, g.qualname, "only in-image animals reach the edge points", "instances are not filtered by the in-image mask", g.where)
-    res.floor(R, 6)
+        sels = []
+        for st in walk_function(g.node):
+            if isinstance(st, ast.Assign) and isinstance(st.value, ast.Subscript) and isinstance(st.value.value, ast.Name) and not isinstance(st.value.slice, (ast.Slice, ast.Tuple, ast.Constant)):
+                m = astq.expand_at(g.node, st.value.slice, st, keep=[st.value.value.id])
+                if "xv[-1]" in norm(m) or "yv[-1]" in norm(m):
+                    sels.append((st, m))
+        res.ob(R, len(sels) == 1, g.qualname, "only in-image animals reach the edge points", f"{len(sels)} in-image selections of the instances: instances are not filtered by the in-image mask", g.where)
+        for st, m in sels:
+            pts = st.value.value.id
+            where = f"{g.module.relpath}:{st.lineno}"
+            res.ob(R, norm(st.targets[0]) == pts, g.qualname, "the filtered animals replace the unfiltered ones", f"`{short(st, 60)}` stores the filtered animals under another name", where)
+            inner, ax_any = _reduction(m, "any")
+            inner2, ax_all = _reduction(inner, "all") if inner is not None else (None, None)
+            res.ob(R, inner2 is not None and ax_any == 1 and ax_all in (-1, 2), g.qualname, "animal kept iff some node is strictly inside: all over (x, y), any over nodes",
+                   f"the in-image mask is `{short(m, 90)}`: not all-over-coordinates then any-over-nodes", where)
+            conj = inner2
+            while isinstance(conj, ast.Call):
+                conj = _strip_calls(conj)
+                break
+            parts = [conj.left, conj.right] if isinstance(conj, ast.BinOp) and isinstance(conj.op, ast.BitAnd) else []
+            lower = upper = None
+            for c in parts:
+                if isinstance(c, ast.Compare) and len(c.ops) == 1:
+                    l, o, r = c.left, c.ops[0], c.comparators[0]
+                    if isinstance(o, ast.Lt):
+                        l, r, o = r, l, ast.Gt()
+                    if isinstance(o, ast.Gt):
+                        if norm(l) == pts and astq.const_value(r) == 0:
+                            lower = c
+                        elif norm(r) == pts:
+                            upper = l
+            res.ob(R, lower is not None and upper is not None, g.qualname, "strictly inside: P > 0 and P < extent",
+                   f"the in-image mask is `{short(m, 90)}`: not (P > 0) & (P < extent)", where)
+            ext = _strip_calls(upper) if upper is not None else None
+            order = [norm(e_) for e_ in ext.args[0].elts] if isinstance(ext, ast.Call) and norm(ext.func).split(".")[-1] in ("stack", "tensor", "as_tensor") and ext.args and isinstance(ext.args[0], (ast.List, ast.Tuple)) else []
+            res.ob(R, order == ["xv[-1]", "yv[-1]"], g.qualname, "extent = (last grid x, last grid y), matching the (x, y) order of keypoints",
+                   f"the in-image extent is built as {order}: x coordinates are compared with the grid HEIGHT (animals near the border of a non-square image are kept/dropped wrongly)",
+                   where, sample={"extent": order})
+    res.floor(R, 8)
 
 
 def check_call(prog: Program, res: Result) -> None:
@@ -277,6 +321,9 @@ VARIANTS = [
     Variant("scrub-after-sum", F, "        paf[torch.isnan(paf)] = 0.0\n\n        pafs += paf\n", "        pafs += paf\n        paf[torch.isnan(paf)] = 0.0\n", "C05-nan"),
     Variant("scrub-wrong-array", F, "        paf[torch.isnan(paf)] = 0.0\n", "        paf[torch.isnan(pafs)] = 0.0\n", "C05-nan"),
     Variant("sum-to-max", F, "        pafs += paf\n", "        pafs = torch.maximum(pafs, paf)\n", "C05-sum"),
+    Variant("bp-sum-enumerate", F, "    n_instances = edge_sources.shape[0]\n    for i in range(n_instances):\n        edge_source = edge_sources[i, :]", "    for i, edge_source in enumerate(edge_sources):", None),
+    Variant("bp-sum-zip", F, "    n_instances = edge_sources.shape[0]\n    for i in range(n_instances):\n        edge_source = edge_sources[i, :]\n        edge_destination = edge_destinations[i, :]", "    for edge_source, edge_destination in zip(edge_sources, edge_destinations):", None),
+    Variant("sum-wrong-destination", F, "        edge_destination = edge_destinations[i, :]", "        edge_destination = edge_destinations[0, :]", "C05-sum"),
     Variant("range-no-square", "sleap_nn/data/utils.py", "    return torch.exp(-(x**2) / (2 * sigma**2))", "    return torch.exp(-(x) / (2 * sigma**2))", "C05-range"),
     Variant("dir-reversed", F, "    unit_vectors = edge_destination - edge_source\n", "    unit_vectors = edge_source - edge_destination\n", "C05-dir"),
     Variant("dir-src-dst-cols", F, "    source_inds = edge_inds[:, 0].to(torch.int32)\n    destination_inds = edge_inds[:, 1].to(torch.int32)", "    source_inds = edge_inds[:, 1].to(torch.int32)\n    destination_inds = edge_inds[:, 0].to(torch.int32)", "C05-dir"),
